@@ -100,7 +100,10 @@ def _seed_items(prop):
             pp = os.path.join(root, d, 'patch.diff')
             if os.path.exists(mp) and os.path.exists(pp):
                 try:
-                    if json.load(open(mp)).get('property') == prop:
+                    meta = json.load(open(mp))
+                    # a seed recorded as "open" (confirmed breaking change that the target check does not yet report; listed in
+                    # DESIGN.md) is not replayed as a must-kill variant: the self-test would otherwise fail on the clean tree
+                    if meta.get('property') == prop and not meta.get('open'):
                         out.append((d, pp))
                 except Exception:
                     continue
